@@ -30,6 +30,31 @@ def protoStep (toks : List String) : Option String :=
   | ["bs.parseread", h] => do
       let name ← hexToString? h
       some (showPRes (parseRead (name.splitOn "/")))
+  | "bs.qws" :: rest => do
+      -- bs.qws name=<hex> present=0|1
+      let name ← hexToString? (← kv rest "name")
+      let present ← boolOf? (← kv rest "present")
+      some (match queryWriteStatus (fun s => s.splitOn "/") (fun _ _ => present) name with
+        | some (c, complete) => s!"ok committed={c} complete={if complete then 1 else 0}"
+        | none => "err")
+  | "bs.read" :: rest => do
+      -- bs.read name=<hex> off=N limit=N present=0|1 msgs=<n1,n2,…|->  (sizes of the messages the reader produced)
+      let name ← hexToString? (← kv rest "name")
+      let off ← parseInt? (← kv rest "off")
+      let limit ← parseInt? (← kv rest "limit")
+      let present ← boolOf? (← kv rest "present")
+      let ms := (← kv rest "msgs")
+      let reads ← if ms == "-" then some [] else (ms.splitOn ",").mapM (fun t => t.toNat?)
+      let pre := readPre (fun s => s.splitOn "/") (fun _ _ => present) name off limit
+      some (match pre with
+        | .invalidArgument => "InvalidArgument"
+        | .outOfRange => "OutOfRange"
+        | .notFound => "NotFound"
+        | .empty => "OK delivered=0"
+        | .emptyZstd => "OK delivered=9"
+        | .stream =>
+          let r := sendLoop (limit != 0) limit reads
+          s!"{if r.2 then "OK" else "OutOfRange"} delivered={r.1}")
   | "bs.write" :: rest => do
       let max ← parseInt? (← kv rest "max")
       let present ← boolOf? (← kv rest "present")
